@@ -390,7 +390,7 @@ impl Check for C04 {
     fn generate(&self, g: &GenParams, emit: &mut dyn FnMut(Case)) {
         let nt = types().len() as u64;
         let mut r = g.rng(4);
-        let per_type = g.count(16 * 1_200, 16 * 60_000) / 16; // cases (of 16 texts each) per shard
+        let per_type = g.count(16 * 3_000, 16 * 300_000) / 16; // cases (of 16 texts each) per shard
         for k in 0..per_type.max(1) {
             for t in 0..nt {
                 let _ = k;
